@@ -19,7 +19,9 @@ def main():
         print(f"   discharged {len(vs)-len(bad)}/{len(vs)} in {time.time()-t0:.1f}s")
         for v in sorted(vs, key=lambda v: -v.seconds)[:6]:
             print("    slow:", f"{v.seconds:.2f}s", v.name, v.backend, f"path={v.path_id}")
+        tr = {(o.name, o.path_id): o.trace for o in fr.obligations}
         for v in bad:
+            print("      trace:", tr.get((v.name, v.path_id), "")[-300:])
             print("   ", v.status, v.name, f"path={v.path_id} line={v.line} {v.backend} {v.seconds:.1f}s", v.detail)
             if v.model:
                 print("        model:", {k: x.get('val', x.get('raw')) for k, x in v.model.items()})
